@@ -103,10 +103,21 @@ func (rd *realDecoder) getArrayLength() (int, error) {
 	if tmp > rd.remaining() {
 		rd.off = len(rd.raw)
 		return -1, ErrInsufficientData
-	} else if tmp > 2*math.MaxUint16 {
+	} else if tmp > 2*math.MaxUint16 || tmp < 0 {
+		// callers size allocations with the result; the null array (-1) is only legal where the
+		// schema says so: those places use getNullableArrayLength
 		return -1, errInvalidArrayLength
 	}
 	return tmp, nil
+}
+
+// getNullableArrayLength is getArrayLength for arrays the protocol allows to be null: it returns -1 for null.
+func (rd *realDecoder) getNullableArrayLength() (int, error) {
+	if rd.remaining() >= 4 && int32(binary.BigEndian.Uint32(rd.raw[rd.off:])) == -1 {
+		rd.off += 4
+		return -1, nil
+	}
+	return rd.getArrayLength()
 }
 
 func (rd *realDecoder) getCompactArrayLength() (int, error) {
@@ -117,6 +128,14 @@ func (rd *realDecoder) getCompactArrayLength() (int, error) {
 
 	if n == 0 {
 		return 0, nil
+	}
+
+	// every element occupies at least one byte
+	if n-1 > uint64(rd.remaining()) {
+		rd.off = len(rd.raw)
+		return 0, ErrInsufficientData
+	} else if n-1 > 2*math.MaxUint16 {
+		return 0, errInvalidArrayLength
 	}
 
 	return int(n) - 1, nil
@@ -178,8 +197,14 @@ func (rd *realDecoder) getCompactBytes() ([]byte, error) {
 		return nil, err
 	}
 
-	length := int(n - 1)
-	return rd.getRawBytes(length)
+	if n == 0 {
+		return nil, errInvalidByteSliceLength
+	} else if n-1 > uint64(rd.remaining()) {
+		rd.off = len(rd.raw)
+		return nil, ErrInsufficientData
+	}
+
+	return rd.getRawBytes(int(n - 1))
 }
 
 func (rd *realDecoder) getStringLength() (int, error) {
@@ -229,6 +254,12 @@ func (rd *realDecoder) getCompactString() (string, error) {
 		return "", err
 	}
 
+	if n == 0 {
+		return "", errInvalidStringLength
+	} else if n-1 > uint64(rd.remaining()) {
+		rd.off = len(rd.raw)
+		return "", ErrInsufficientData
+	}
 	length := int(n - 1)
 
 	tmpStr := string(rd.raw[rd.off : rd.off+length])
@@ -242,11 +273,13 @@ func (rd *realDecoder) getCompactNullableString() (*string, error) {
 		return nil, err
 	}
 
-	length := int(n - 1)
-
-	if length < 0 {
-		return nil, err
+	if n == 0 {
+		return nil, nil
+	} else if n-1 > uint64(rd.remaining()) {
+		rd.off = len(rd.raw)
+		return nil, ErrInsufficientData
 	}
+	length := int(n - 1)
 
 	tmpStr := string(rd.raw[rd.off : rd.off+length])
 	rd.off += length
@@ -263,6 +296,10 @@ func (rd *realDecoder) getCompactInt32Array() ([]int32, error) {
 		return nil, nil
 	}
 
+	if n-1 > uint64(rd.remaining())/4 {
+		rd.off = len(rd.raw)
+		return nil, ErrInsufficientData
+	}
 	arrayLength := int(n) - 1
 
 	ret := make([]int32, arrayLength)
@@ -346,6 +383,12 @@ func (rd *realDecoder) getStringArray() ([]string, error) {
 
 	if n < 0 {
 		return nil, errInvalidArrayLength
+	}
+
+	// every string occupies at least its two length bytes
+	if n > rd.remaining()/2 {
+		rd.off = len(rd.raw)
+		return nil, ErrInsufficientData
 	}
 
 	ret := make([]string, n)
